@@ -215,6 +215,27 @@ func ruleEqFields(c *Ctx) {
 			c.R.Check(seen[w], t.pkg+"."+t.fns[0], "component "+w+" is compared", token.NoPos, "covered by a recursive comparison", "no recursive comparison reaches component "+w+": values differing only there are treated as equal")
 		}
 	}
+	// the co-inductive assumption is made for the pair (x, y), never for one side alone
+	for _, fn := range []string{"equals", "unify"} {
+		if fd := c.FuncDecl("types", fn); fd != nil {
+			var ps []string
+			for _, f := range fd.Type.Params.List {
+				for _, n := range f.Names {
+					ps = append(ps, n.Name)
+				}
+			}
+			okPair := false
+			for _, call := range c.callsTo(fd.Body, "util.PtrPtrSet.Contains") {
+				if len(call.Args) == 2 && len(ps) >= 2 && src(call.Args[0]) == ps[0] && src(call.Args[1]) == ps[1] {
+					okPair = true
+				}
+			}
+			single := len(c.callsTo(fd.Body, "util.PtrSet.Contains")) > 0
+			c.R.Check(okPair && !single, "types."+fn, "in-process memo is keyed by the pair of operands", fd.Pos(), "inProcess.Contains(x, y)", "the cycle memo is keyed by one operand only: a shared sub-type met a second time is assumed equal to whatever it is compared with (the type checker accepts [{a: v, b: v}, {a: [1], b: [`s`]}])")
+		} else {
+			c.R.Anchor("types." + fn)
+		}
+	}
 	// kinds compared before arms in types.equals; type equality first in val.Equals
 	if fd := c.FuncDecl("types", "equals"); fd != nil {
 		g := c.buildCFG(fd.Body)
